@@ -1,5 +1,146 @@
-"""Thorough tier extras (witness doctests, multi-profile PDB agreement, seeded self-test). Filled in later."""
+"""Thorough tier: everything the quick tier does, plus
+
+ (a) the compile-time witnesses (witness/: compile_fail doctests with compiling twins, nightly so the error
+     codes are enforced) for the properties that have type-level clauses;
+ (b) the rule verdicts are recomputed on PDBs built under the other cargo profiles (`--release`, test cfg) and
+     must be identical to the dev-profile verdicts (no verdict depends on the profile);
+ (c) `cargo +nightly check --all-targets` through the driver confirms the whole tree (tests, examples) builds;
+ (d) the sensitivity self-test: every seeded one-construct edit of this property that still applies to the
+     CURRENT tree is applied to a scratch copy outside /repo and /verif, the driver and the rules are rerun on it
+     and `detected k / applied n` is recorded.  An undetected seed is a weakness of the checker, not a violation
+     of the property, and never fails the check — with one exception: the seeds that re-introduce a defect this
+     very rule found and that was repaired in /repo (positive fixtures for rules whose expected count is zero).
+     If such a seed applies and the rule stays silent, the rule is dead and the check fails closed.
+"""
+import importlib
+import os
+import shutil
+import subprocess
+import tempfile
+import time
+
+from . import pdb as pdbmod
+from .report import Report
+
+WITNESS_PROPS = {"C02": ["MatrixSharedRefIsReadOnly", "DeterminantTakesSharedRef"],
+                 "C16": ["DotTakesSharedRefs"],
+                 "C17": ["NewtonSolveTakesSharedRef", "NewtonFieldsArePrivate"],
+                 "C20": ["MatrixSharedRefIsReadOnly", "VectorSharedRefIsReadOnly", "OwnedOperatorsConsume", "SparseIsNotClone", "SolversTakeSharedRefs",
+                         "DeterminantTakesSharedRef", "NewtonSolveTakesSharedRef", "DotTakesSharedRefs"]}
+
+
+def run_witnesses(rep, prop):
+    names = WITNESS_PROPS.get(prop)
+    if not names:
+        return {}
+    wdir = os.path.join(pdbmod.VERIF, "witness")
+    tmp = tempfile.mkdtemp(prefix="ohsl-witness-")
+    out = {}
+    try:
+        work = os.path.join(tmp, "witness")
+        shutil.copytree(wdir, work, ignore=shutil.ignore_patterns("target", "Cargo.lock"))
+        # the witness crate path-depends on the analysed tree
+        repo = pdbmod.REPO
+        toml = open(os.path.join(work, "Cargo.toml")).read().replace('path = "/repo"', 'path = "%s"' % repo)
+        open(os.path.join(work, "Cargo.toml"), "w").write(toml)
+        if os.path.exists(os.path.join(repo, "Cargo.lock")):
+            shutil.copy(os.path.join(repo, "Cargo.lock"), os.path.join(work, "Cargo.lock"))
+        env = dict(os.environ, CARGO_NET_OFFLINE="true", CARGO_TARGET_DIR=os.path.join(tmp, "t"))
+        env.pop("RUSTC_WORKSPACE_WRAPPER", None)
+        r = subprocess.run(["cargo", "+nightly", "test", "--doc", "--offline"], cwd=work, env=env, capture_output=True, text=True)
+        lines = [l for l in r.stdout.splitlines() if l.startswith("test src/lib.rs")]
+        res = {}
+        for l in lines:
+            # test src/lib.rs - Name (line N) - compile fail ... ok
+            parts = l.split(" - ")
+            nm = parts[1].split(" ")[0]
+            kind = "compile_fail" if "compile fail" in l else "compiles"
+            ok = l.rstrip().endswith("ok")
+            res.setdefault(nm, []).append((kind, ok))
+        for nm in names:
+            got = res.get(nm)
+            if not got:
+                rep.missing("witnesses/%s" % nm, "compile_fail witness with compiling twin", "witness %s did not run:\n%s" % (nm, (r.stdout + r.stderr)[-1500:]))
+                continue
+            okall = all(ok for _, ok in got) and any(k == "compile_fail" for k, _ in got) and any(k == "compiles" for k, _ in got)
+            rep.add("witnesses/%s" % nm, "the violating program is rejected by rustc with the expected error code and its twin compiles (external user's view)",
+                    okall, where="witness/src/lib.rs", msg="%s" % got, proof=True)
+        out["witness_blocks"] = sum(len(v) for k, v in res.items() if k in names)
+    finally:
+        shutil.rmtree(tmp, ignore_errors=True)
+    return out
+
+
+def verdicts(rep):
+    return sorted((r.key, r.status) for r in rep.results if r.status != "info")
+
+
+def run_profiles(rep, prop, mod, base_rep):
+    """Recompute the verdicts on PDBs of the other cargo profiles."""
+    out = {}
+    base = verdicts(base_rep)
+    for label, kw in (("release", {"profile": "release"}), ("test-cfg", {"cfg_test": True})):
+        t0 = time.time()
+        try:
+            d, info = pdbmod.build_pdb(**kw)
+        except pdbmod.PdbError as e:
+            rep.missing("profiles/%s" % label, "the tree builds under this profile", str(e)[-800:])
+            continue
+        r2 = Report(prop)
+        mod.run(r2, pdbmod.Pdb(d), "quick")
+        same = verdicts(r2) == base
+        diff = sorted(set(verdicts(r2)) ^ set(base))[:6]
+        rep.add("profiles/%s" % label, "the rule verdicts do not depend on the cargo profile (same instances, same verdicts)", same, where="cargo %s" % label,
+                msg="instances=%d differing=%s (%.1fs)" % (len(verdicts(r2)), diff, time.time() - t0), nontrivial=False)
+        out[label] = {"instances": len(verdicts(r2)), "identical": same}
+    return out
+
+
+def run_all_targets(rep):
+    t0 = time.time()
+    try:
+        pdbmod.build_pdb(all_targets=True)
+        rep.add("all-targets", "the whole tree (lib, tests, examples) type-checks through the driver", True, where="cargo check --all-targets", msg="%.1fs" % (time.time() - t0), nontrivial=False)
+        return {"all_targets_build": True}
+    except pdbmod.PdbError as e:
+        rep.missing("all-targets", "the whole tree builds", str(e)[-800:])
+        return {"all_targets_build": False}
+
+
+def run_selftest(rep, prop):
+    import sys
+    sys.path.insert(0, pdbmod.VERIF)
+    from selftest import runner
+    from selftest.seeds import SEEDS
+    seeds = [s for s in SEEDS if s["prop"] == prop]
+    res = runner.run_all(prop, None, jobs=8)
+    by = {r["id"]: r for r in res}
+    applied = [r for r in res if r["status"] not in ("skipped", "does-not-compile")]
+    detected = [r for r in applied if r["status"] in ("detected", "detected-elsewhere")]
+    neutral = [r for r in applied if r["status"] in ("silent-ok", "false-alarm")]
+    missed = [r["id"] for r in applied if r["status"] == "missed"]
+    false_alarms = [r["id"] for r in applied if r["status"] == "false-alarm"]
+    # positive fixtures: seeds re-introducing a repaired defect must be reported
+    for s in seeds:
+        if "original defect" in (s.get("note") or ""):
+            r = by.get(s["id"])
+            if r is None or r["status"] in ("skipped", "does-not-compile"):
+                rep.info("selftest/fixture/%s" % s["id"], "positive fixture no longer applies textually (skipped)")
+                continue
+            rep.add("selftest/fixture/%s" % s["id"], "positive fixture: re-introducing the repaired defect in a scratch copy must be reported by the rule that found it",
+                    r["status"] in ("detected", "detected-elsewhere"), where="scratch copy of %s" % s["file"], msg="%s %s" % (r["status"], r.get("keys")), nontrivial=False)
+    return {"selftest": {"seeds": len(seeds), "applied": len(applied), "detected": len(detected), "missed": missed,
+                         "neutral_edits": len(neutral), "false_alarms_on_neutral_edits": false_alarms,
+                         "per_seed": {r["id"]: r["status"] for r in res}}}
 
 
 def run(prop, rep, db, mod, args):
-    return {}
+    extra = {}
+    base = Report(prop)
+    base.results = [r for r in rep.results]
+    extra.update(run_witnesses(rep, prop))
+    extra["profiles"] = run_profiles(rep, prop, mod, base)
+    extra.update(run_all_targets(rep))
+    if not getattr(args, "repo", None):
+        extra.update(run_selftest(rep, prop))
+    return extra
